@@ -159,6 +159,26 @@ func runTokens(c *h.Ctx, r *h.Report) {
 						}
 					}
 				}
+				// replay across roles: a token accepted in its own role is then presented to the other role
+				both := `{"mercure":{"publish":["*"],"subscribe":["*"],"payload":"X"}}`
+				subSigned, pubSigned := jws.Mint(f.subKey, both), jws.Mint(f.pubKey, both)
+				for cn, a := range carriers(subSigned) {
+					rqs = append(rqs, rq{tokCase{cfg, "cross-role: subscriber-signed, first used to subscribe", subSigned, "sub", cn}, a},
+						rq{tokCase{cfg, "cross-role: subscriber-signed, replayed on publish", subSigned, "pub", cn}, a})
+				}
+				for cn, a := range carriers(pubSigned) {
+					rqs = append(rqs, rq{tokCase{cfg, "cross-role: publisher-signed, first used to publish", pubSigned, "pub", cn}, a},
+						rq{tokCase{cfg, "cross-role: publisher-signed, replayed on subscribe", pubSigned, "sub", cn}, a})
+					if cn == "header" {
+						rqs = append(rqs, rq{tokCase{cfg, "cross-role: publisher-signed, replayed on the API", pubSigned, "api", cn}, a})
+					}
+				}
+				// and every valid token once more at the end (an answer must not depend on what was seen before)
+				for _, m := range pubMut[:1] {
+					for cn, a := range carriers(m[1]) {
+						rqs = append(rqs, rq{tokCase{cfg, "valid (again)", m[1], "pub", cn}, a})
+					}
+				}
 				lines := []string{f.cfgLine(), "or.reset"}
 				seen := map[string]bool{}
 				for _, q := range rqs {
@@ -200,7 +220,7 @@ func runTokens(c *h.Ctx, r *h.Report) {
 						r.Disagree(h.Disagreement{Class: "C03.validate/" + q.cs.Endpoint, Case: q.cs, Model: ans[i], Impl: impl, At: i})
 					}
 					key := q.cs.Endpoint + "/" + q.cs.Carrier
-					if q.cs.Mutation == "valid" {
+					if q.cs.Mutation == "valid" || strings.Contains(q.cs.Mutation, "first used") {
 						parentOK[key] = status == 200
 					}
 					// harness-alone oracle: a token its own verifier rejects must be refused with 401
